@@ -169,6 +169,39 @@ func main() {
 			}
 		}
 	}
+	// forked code guarded by PanicToErr / PanicToErrState: the Exception carries the panic's message
+	for _, kind := range []string{"PanicToErr", "PanicToErrState"} {
+		for _, val := range []string{"error", "string"} {
+			total++
+			ctx, cancel := context.WithCancel(context.Background())
+			m := am.New(ctx, am.Schema{"A": {}, "P": {}}, &am.Opts{Id: "verif-c08"})
+			func() {
+				if kind == "PanicToErr" {
+					defer m.PanicToErr(nil)
+				} else {
+					defer m.PanicToErrState("A", nil)
+				}
+				if val == "error" {
+					panic(errors.New("boom-forked"))
+				}
+				panic("boom-forked")
+			}()
+			bad := ""
+			if !m.IsErr() {
+				bad = "Exception not active"
+			}
+			if m.Err() == nil || !strings.Contains(m.Err().Error(), "boom-forked") {
+				bad += fmt.Sprintf(" Err() = %v does not carry the panic message", m.Err())
+			}
+			if m.Add1("P", nil) != am.Executed {
+				bad += " probe mutation failed"
+			}
+			cancel()
+			if bad != "" {
+				failing = append(failing, fmt.Sprintf("defer m.%s; panic(%s value) => %s", kind, val, strings.TrimSpace(bad)))
+			}
+		}
+	}
 	json.NewEncoder(os.Stdout).Encode(map[string]any{"failing": failing, "total": total})
 }
 `
